@@ -155,7 +155,8 @@ def queued_across_expiry(ctx, orc, fails, dist):
 
 def run(ctx):
     ctx.level = "proof"
-    proved = vlib.prove(ctx, ["Properties_C07.v", "Properties_C07_pipeline.v"], facts=["replay", "cred", "base64", "cfun"])
+    proved = vlib.prove(ctx, ["Properties_C07.v", "Properties_C07_pipeline.v", "Properties_C18_clock.v"],
+                        facts=["replay", "cred", "base64", "cfun", "timer", "clockfun"])
     ctx.log("proofs:", "ok" if proved else "BROKEN: " + getattr(ctx, "broken_obligation", "?"))
     ctx.cov["rule"] = ("proof: Properties_C07.v over ReplayModel (facts from replay.c); correspondence: the same histories "
                        "through /repo's replay.c+hash.c (virtual clock via --wrap=time, purge through the registered timer "
@@ -164,6 +165,10 @@ def run(ctx):
                        "and bucket neighbours expiring at e-1/e/e+1, plus random histories with purges at e-1/e/e+1 of "
                        "every key; every history is non-trivial (distinct by content)")
     res = replay_common.component_phase(ctx, PROP, proved)
+    # the purge timer's place in the timer list and its firing rest on clock.c's order and deadline arithmetic: the functions
+    # translated from its C text (Properties_C18_clock.v above) and /repo's clock.c on second-boundary readings
+    from props import c18_clock
+    c18_clock.clock_phase(ctx, proved)
     live_phase(ctx)
     if not proved and not ctx.violations:
         ctx.violation("proof obligation no longer checks: %s" % getattr(ctx, "broken_obligation", "?"),
